@@ -120,7 +120,7 @@ impl Cond {
 // scheduler
 
 #[derive(Clone, Copy, PartialEq, Eq, Debug)]
-enum Policy { Free, Random, Fifo, Lifo, StaleMax, StaleRandom }
+enum Policy { Free, Random, Fifo, Lifo, StaleMax, StaleRandom, Burst }
 
 struct Ticket { id: u64, released: bool }
 
@@ -139,6 +139,9 @@ struct Inner {
 struct Sched {
     policy: Policy,
     quiet: Duration,
+    /// Burst: number of workers released together / number of them that have woken up
+    burst_size: std::sync::atomic::AtomicUsize,
+    burst_awake: std::sync::atomic::AtomicUsize,
     m: Mutex<Inner>,
     cv_workers: Condvar,
     cv_ctrl: Condvar,
@@ -152,14 +155,15 @@ impl Sched {
             m: Mutex::new(Inner { trace: vec![], waiting: vec![], last_arrival: now, last_release: now, next_id: 0,
                 done: false, rng, self_released: 0, max_waiting: 0 }),
             cv_workers: Condvar::new(), cv_ctrl: Condvar::new(),
+            burst_size: std::sync::atomic::AtomicUsize::new(0), burst_awake: std::sync::atomic::AtomicUsize::new(0),
         }
     }
 
     fn blocks(&self, e: &PivotEvent) -> bool {
         match (self.policy, e) {
             (Policy::Free, _) => false,
-            (Policy::StaleMax | Policy::StaleRandom, PivotEvent::Candidate { col: Some(_), .. }) => true,
-            (Policy::StaleMax | Policy::StaleRandom, _) => false,
+            (Policy::StaleMax | Policy::StaleRandom | Policy::Burst, PivotEvent::Candidate { col: Some(_), .. }) => true,
+            (Policy::StaleMax | Policy::StaleRandom | Policy::Burst, _) => false,
             (_, PivotEvent::TaskStart { .. }) => true,
             (_, PivotEvent::Candidate { col: Some(_), .. }) => true,
             _ => false,
@@ -180,7 +184,20 @@ impl Sched {
         let deadline = Instant::now() + Duration::from_secs(3);
         loop {
             let pos = g.waiting.iter().position(|t| t.id == id).unwrap();
-            if g.waiting[pos].released || g.done { g.waiting.remove(pos); return }
+            if g.waiting[pos].released || g.done {
+                g.waiting.remove(pos);
+                drop(g);
+                if self.policy == Policy::Burst {
+                    // all workers released together rush to the lock at the same instant (bounded spin)
+                    use std::sync::atomic::Ordering::SeqCst;
+                    self.burst_awake.fetch_add(1, SeqCst);
+                    let t0 = Instant::now();
+                    while self.burst_awake.load(SeqCst) < self.burst_size.load(SeqCst) && t0.elapsed() < Duration::from_micros(300) {
+                        std::hint::spin_loop();
+                    }
+                }
+                return
+            }
             let now = Instant::now();
             if now >= deadline { g.waiting.remove(pos); g.self_released += 1; return }
             g = self.cv_workers.wait_timeout(g, deadline - now).unwrap().0;
@@ -200,6 +217,15 @@ impl Sched {
             let ready_at = std::cmp::max(g.last_arrival, g.last_release) + self.quiet;
             if now < ready_at {
                 g = self.cv_ctrl.wait_timeout(g, ready_at - now).unwrap().0;
+                continue;
+            }
+            if self.policy == Policy::Burst {
+                use std::sync::atomic::Ordering::SeqCst;
+                self.burst_awake.store(0, SeqCst);
+                self.burst_size.store(pending.len(), SeqCst);
+                for &i in &pending { g.waiting[i].released = true; }
+                g.last_release = Instant::now();
+                self.cv_workers.notify_all();
                 continue;
             }
             let pick = match self.policy {
@@ -457,6 +483,44 @@ where for<'x> &'x R: RingOps<R> {
     MatDesc { m, n, ents }
 }
 
+/// many rows racing for the same few columns in the parallel phase: row 0 = {0}, row 1 = {1, c_1..c_f} (both
+/// become pivots in phase 1, so c_1..c_f are occupied for phase 2), racing rows = {0} ∪ a non-empty subset of
+/// the c's — their traversal (through row 0 only) leaves those c's as candidates, so all of them head for the
+/// lightest c at once
+fn race_mat<R: Scal>(r: &mut Rng, nrace: usize, nfree: usize) -> MatDesc<R>
+where for<'x> &'x R: RingOps<R> {
+    let (m, n) = (2 + nrace, 2 + nfree);
+    let mut ents = vec![];
+    let one = |r: &mut Rng| R::make(if r.bool() { Kind::One } else { Kind::MinusOne }, r);
+    let (x, kd) = one(r); ents.push((0, 0, x, kd));
+    let (x, kd) = one(r); ents.push((1, 1, x, kd));
+    for j in 2..n { let (x, kd) = one(r); ents.push((1, j, x, kd)); }
+    for i in 2..m {
+        let (x, kd) = one(r); ents.push((i, 0, x, kd));
+        let forced = 2 + r.below(nfree as u64) as usize;
+        for j in 2..n {
+            if j == forced || r.below(100) < 40 { let (x, kd) = one(r); ents.push((i, j, x, kd)); }
+        }
+    }
+    MatDesc { m, n, ents }
+}
+
+fn race_cases<R: Scal>(s: &mut Sink, pools: &mut Pools, r: &mut Rng, count: usize)
+where for<'x> &'x R: RingOps<R> {
+    for _ in 0..count {
+        let (nrace, nfree) = (r.range(2, 14) as usize, r.range(1, 4) as usize);
+        let d: MatDesc<R> = race_mat(r, nrace, nfree);
+        s.count("gen.race");
+        let t = if r.chance(3, 4) { PivotType::Rows } else { PivotType::Cols };
+        for _ in 0..3 {
+            let p = *r.pick(&[Policy::Burst, Policy::Burst, Policy::Free, Policy::StaleRandom]);
+            let q = *r.pick(&[200u64, 400, 800]);
+            let th = *r.pick(&[2usize, 4, 8, 8, 16, 16]);
+            run_case(s, pools, r, &d, t, Cond::One, th, p, q);
+        }
+    }
+}
+
 fn from_dense<R: Scal>(m: usize, n: usize, data: &[i64]) -> MatDesc<R>
 where for<'x> &'x R: RingOps<R> {
     let mut r = Rng::new(7);
@@ -471,7 +535,7 @@ where for<'x> &'x R: RingOps<R> {
     MatDesc { m, n, ents }
 }
 
-const POLICIES: &[Policy] = &[Policy::Free, Policy::Random, Policy::Fifo, Policy::Lifo, Policy::StaleMax, Policy::StaleRandom];
+const POLICIES: &[Policy] = &[Policy::Free, Policy::Random, Policy::Fifo, Policy::Lifo, Policy::StaleMax, Policy::StaleRandom, Policy::Burst, Policy::Burst];
 const CONDS: &[Cond] = &[Cond::One, Cond::One, Cond::AnyUnit, Cond::AnyUnit, Cond::Weight(2), Cond::Weight(4), Cond::Weight(5), Cond::Weight(6)];
 
 fn pick_threads(r: &mut Rng) -> usize {
@@ -482,7 +546,7 @@ fn pick_sched(r: &mut Rng) -> (Policy, u64) {
     let p = *r.pick(POLICIES);
     let q = match p {
         Policy::Free => 0,
-        Policy::StaleMax | Policy::StaleRandom => *r.pick(&[300u64, 600, 1200]),
+        Policy::StaleMax | Policy::StaleRandom | Policy::Burst => *r.pick(&[300u64, 600, 1200]),
         _ => *r.pick(&[40u64, 120, 300]),
     };
     (p, q)
@@ -518,6 +582,7 @@ where for<'x> &'x R: RingOps<R> {
         from_dense(4, 4, &[1, 0, 1, 0, 0, 1, 1, 1, 0, 0, 0, 0, 0, 0, 1, 1]),
         from_dense(4, 4, &[3, 3, 0, 3, 3, 0, 3, 3, 0, 3, 3, 0, 3, 3, 3, 3]),  // no ±1 at all
         from_dense(4, 5, &[2, 1, 0, 1, 0, 1, 2, 1, 0, 0, 0, 1, 2, 0, 1, 1, 0, 1, 2, 1]),
+        from_dense(4, 3, &[1, 0, 0, 0, 1, 1, 1, 0, 1, 1, 0, 1]),          // two rows racing for one column (exStr in Props/C11.lean)
         from_dense(6, 9, test69),
         from_dense(6, 9, init69),
         from_dense(5, 5, &[1, 1, 1, 1, 1, 1, 1, 1, 1, 1, 1, 1, 1, 1, 1, 1, 1, 1, 1, 1, 1, 1, 1, 1, 1]),
@@ -604,6 +669,9 @@ fn main() {
     gen_cases::<FF<3>>(&mut s, &mut pools, &mut r, base / 2, thorough);
     gen_cases::<FF<5>>(&mut s, &mut pools, &mut r, base / 2, thorough);
     gen_cases::<PH>(&mut s, &mut pools, &mut r, base, thorough);
+
+    race_cases::<i64>(&mut s, &mut pools, &mut r, if thorough { 1500 } else { 120 });
+    race_cases::<FF<3>>(&mut s, &mut pools, &mut r, if thorough { 500 } else { 40 });
 
     enum_cases(&mut s, &mut r, if thorough { 400 } else { 25 });
 
